@@ -2,5 +2,10 @@
 #include "arch.h"
 #include "drv_core.h"
 #include "drv_lvalue.h"
+// results of the driver grid reach order 7; the region evaluator observes them through their accessors
+template class bspline::Spline<vt::Arch, 4>;
+template class bspline::Spline<vt::Arch, 5>;
+template class bspline::Spline<vt::Arch, 6>;
+template class bspline::Spline<vt::Arch, 7>;
 template void vt::drive<vt::Arch>();
 template void vt::drive_lvalue<vt::Arch>();
